@@ -273,11 +273,69 @@ def run(ctx):
             ok = body is not None and (rx is None or re.search(rx, body.replace(" ", "")) is not None)
             obs.append(ob("C03.helpers/def/%s.%s" % (tname, h), ok, "group.rs", "helper %s: %s" % (h, body if body else "not defined")))
 
+    # ---------------- C03.lists: separator flags of list emitters
+    obs += list_rules(ctx)
+
     # ---------------- C03.literal
     obs += literal_rules(ctx)
     n_bin = sum(1 for o in obs if o["key"].startswith("C03.prec/gen/"))
     if n_bin < 28:
         obs.append(ob("C03.floor/gen-arms", False, where, "only %d operator arms analysed (floor 28 = 22 plain binary + 6 unary)" % n_bin))
+    return obs
+
+
+# separator flags whose buffer is only ever tested for truthiness element-wise (holes are harmless there)
+LIST_FLAG_EXCEPTIONS = {
+    ("to_path_analysis_str", "next_need_comma_sep"): "update-path test arrays/objects: Q.a/Q.b only ask whether any entry is truthy, an empty slot changes nothing",
+}
+
+
+def list_rules(ctx):
+    import sepflags
+    ob = ctx.ob
+    tc = ctx.tc
+    obs = []
+    n = 0
+    for f in tc.fns:
+        if not f.body or not ("proc_gen" in f.module or "binding_map" in f.module or "group" in f.module):
+            continue
+        for flag, buf, loop in sepflags.find_flags(f):
+            n += 1
+            res = sepflags.check_flag(f, flag, buf, loop)
+            bad = [d for ok, d in res if not ok]
+            key = "C03.lists/%s/%s/%s" % (f.qual, flag, buf)
+            exc = LIST_FLAG_EXCEPTIONS.get((f.name, flag))
+            if bad and exc:
+                obs.append(ob(key, True, ctx.where(f), "tabled exception (%s); inconsistent paths: %s" % (exc, bad[:2])))
+                continue
+            obs.append(ob(key, not bad, ctx.where(f),
+                          ("separator flag `%s` agrees with what `%s` ends with on all %d paths of the loop body" % (flag, buf, len(res))) if not bad else
+                          "after %s the flag says a separator %s needed, but the buffer ends the other way: an element is emitted with a missing or an extra `,` (array hole / syntax error)" % (bad[0], "is"),
+                          witness=None if not bad else "{{ [a, ...b, c] }} emits [].concat([D.a],D.b,[,D.c])",
+                          sample=[d for _ok, d in res][:6]))
+    if n < 4:
+        obs.append(ob("C03.floor/list-flags", False, "proc_gen/expr.rs", "only %d separator flags found (floor 4)" % n))
+    # accumulators of the integer-literal scanner: every digit reaches every accumulator
+    for f in tc.fns:
+        if not f.body or "parse" not in f.module:
+            continue
+        params = [p for p in f.param_names() if p and p != "self"]
+        accs = []
+        for st in f.body["stmts"]:
+            pass
+        for nnode in sir.walk(f.body):
+            if nnode.get("k") == "assign" and nnode["l"].get("k") == "field" and sir.expr_str(nnode["l"]["base"]) == "self":
+                fld = nnode["l"]["name"]
+                rs = sir.expr_str(nnode["r"])
+                if ("self." + fld) in rs and any(pn in [x["s"] for x in sir.walk(nnode["r"]) if x.get("k") == "path"] for pn in params):
+                    accs.append((fld, nnode))
+        if len(accs) >= 1 and params and f.base and "Acc" in f.base:
+            top = set(id(st["e"]) for st in f.body["stmts"] if st.get("k") == "expr")
+            for fld, nnode in accs:
+                uncond = id(nnode) in top
+                obs.append(ob("C03.literal/accumulator/%s.%s" % (f.qual, fld), uncond, ctx.where(f),
+                              "accumulator `self.%s` is updated with every digit unconditionally: %s" % (fld, uncond) + ("" if uncond else " - digits consumed while the update is skipped are lost from the value"),
+                              witness=None if uncond else "{{ 0x10000000000000000 }} evaluates to 0"))
     return obs
 
 
